@@ -49,4 +49,33 @@ def setBytes (b : Bytes) : Bytes := scSetBytes b
 def marshal (v : Bytes) : Bytes := scMarshal v
 def unmarshal (buf : Bytes) : Except ScErr Bytes := scUnmarshal buf
 
+/-! ### SetInt64, Pick, MarshalTo, UnmarshalFrom (follow-up of round 5)
+
+`mod.NewInt64`, `mod.NewInt` (github.com/dedis/kyber/group/mod) and `random.Int` (…/util/random) are EXTERNAL code: what
+they do is modelled here as read from their source and listed as an assumption in meta; the `apx setint64 / pick / marshalto /
+unmarshalfrom` cases compare these definitions with the real methods.  `marshalling.ScalarMarshalTo / ScalarUnmarshalFrom /
+PointMarshalTo / PointUnmarshalFrom` are in the repository (group/internal/marshalling) and pinned as text. -/
+
+/-- `SetInt64(v)` = `setInt(mod.NewInt64(v, primeOrder))`: v reduced into [0, ℓ) -/
+def setInt64 (v : Int) : Bytes := natLE 32 (v % (ell : Int)).toNat
+
+/-- `random.Int(ℓ, rand)`: blocks of ⌈253/8⌉ = 32 stream bytes, big-endian, the top byte masked to 253 bits
+(`b[0] &= ^(0xff << 5)`), until 0 < k < ℓ; `draws` = the successive 32-byte blocks the stream yields -/
+def randomInt : List Bytes → Option Nat
+  | [] => none
+  | b :: rest =>
+    let k := beNat b % 2 ^ 253
+    if 0 < k ∧ k < ell then some k else randomInt rest
+
+/-- `Pick(rand)` = `setInt(mod.NewInt(random.Int(primeOrder, rand), primeOrder))` -/
+def pick (draws : List Bytes) : Option Bytes := (randomInt draws).map (fun k => natLE 32 (k % ell))
+
+/-- `MarshalTo(w)`: `marshalling.ScalarMarshalTo` writes `MarshalBinary()` to w -/
+def marshalTo (v : Bytes) : Bytes := marshal v
+
+/-- `UnmarshalFrom(r)` on a reader (not a cipher.Stream) holding `inp`: `io.ReadFull` of `MarshalSize()` = 32 bytes, then
+`UnmarshalBinary`; (bytes consumed, result) -/
+def unmarshalFrom (inp : Bytes) : Nat × Except ScErr Bytes :=
+  if inp.length < 32 then (inp.length, .error .wrongSize) else (32, unmarshal (inp.take 32))
+
 end Dos.Ed25519.Api
